@@ -20,7 +20,8 @@ RULE = ("Hypothesis draws a scenario (store algorithm, content size, generated s
         "retried without the fault succeeds and serves the data; (3) failed store_metadata => previous version / "
         "absence intact; (4) always every other pid's object, references and metadata untouched. evaluations = "
         "faulted executions. Non-trivial = fault after the call's first mutation; distinct key = (call kind, "
-        "boundary kind, path class, mode, errno, outcome class).")
+        "boundary kind, path class, mode, errno, outcome class)."
+        " Enumerated family next-to: thread 0 gets one EIO at its k-th fault site (every k), thread 1 runs a clean concurrent call on the same content / pid / list, every conflict-directed single-preemption schedule; the clean call's normal return must carry its whole effect, bystanders of the start state are untouched.")
 EXHAUSTIVE_NOTE = "within each scenario every fault site x mode (x errno) of the call is injected"
 ASSUMPTIONS = ["faults are OSErrors raised at the Python/OS boundary before the operation takes effect",
                "temp-file residue after an I/O failure is not judged (the property does not claim it)"]
